@@ -42,7 +42,8 @@ def configs(tier):
                         if maxs(d) >= 3 and (ncols == 2 or mnl == 1): continue
                         out.append({'kernel': 'scale', 'dims': d, 'mnl': mnl, 'ncols': ncols, 'trans': trans, 'inverse': inv})
             for inv in 'NI':
-                if maxs(d) <= 2:
+                # ('q' blocks of dimension 4 in scale2: the hyperbolic-Householder identity is not decided within the budget - outside)
+                if maxs(d) <= 2 and max([0] + d['q']) <= 3:
                     out.append({'kernel': 'scale2', 'dims': d, 'mnl': mnl, 'inverse': inv})
             for off in ((0, 0), (1, 2)):
                 out.append({'kernel': 'pack', 'dims': d, 'mnl': mnl, 'offsetx': off[0], 'offsety': off[1]})
